@@ -66,8 +66,9 @@ def c03(ck):
     if ck.violations:
         return
     # well-formed however long: lists of 65 537 ... 250 000 (thorough: 4 M) empty items with one more list behind them
-    ck.trace("flat", "big", ["-arg", "flat"], "TraceCodec", "TraceCodec.cfg", ["InvSeq"], nontrivial=lambda e: True,
-             key=lambda e: json.dumps([e.get("kind"), e.get("n")]), consts_extra={"ChunkSize": 1})
+    # ... and real items of every format at every length-byte boundary, decoded from a buffer that is overwritten afterwards
+    ck.trace("big", "big", [], "TraceCodec", "TraceCodec.cfg", ["InvBig", "InvSeq"],
+             nontrivial=lambda e: e.get("n", 0) >= 31 or e.get("ev") in ("bigseq", "bigflat", "bigroute"))
     ck.assumptions += ["TLC explores the decoder model exhaustively only inside the stated scope",
                        "the harness projection (zz_verif.go, proj.go) reports the stored representation faithfully",
                        "message name and direction are not on the wire and are not compared"]
